@@ -136,7 +136,24 @@ def node_level(ck, tier):
                 hello = M.MessageHeader(0, 1, 0, 1).serialize() + sn.hello().serialize()
                 getpeers = [M.MessageHeader(0, 10 + i, 0, 1).serialize() + M.GetPeersMessage().serialize() for i in range(1300)]
                 unsupported = M.MessageHeader(0, 5, 0, 1).serialize() + M.GetDataMessage(M.DATA_TRANSACTION, b'\x07' * 32).serialize()
-                streams = [('1300-small-frames-in-one-write', [hello] + getpeers, None, None),
+                # a message just under the size limit (limit lowered to 3,000 for the probe, wherever it is looked up),
+                # immediately followed by another one: both are delivered, however the reads fall
+                import sys as _sys
+                lim = 3000
+                near = None
+                for nh in range(95, 60, -1):
+                    cand_ = M.MessageHeader(0, 77, 0, 1).serialize() + M.GetBlocksMessage([bytes([nh]) * 32] * nh, b'\x09' * 32).serialize()
+                    if len(cand_) <= lim:
+                        near = cand_
+                        break
+                patched_lim = []
+                for mn_, mod_ in list(_sys.modules.items()):
+                    if mn_.startswith('skepticoin.networking') and mod_ is not None and 'MAX_MESSAGE_SIZE' in getattr(mod_, '__dict__', {}):
+                        patched_lim.append((mod_, mod_.MAX_MESSAGE_SIZE))
+                        mod_.MAX_MESSAGE_SIZE = lim
+                streams = [('message-just-under-the-size-limit-then-another/one-write', [hello, near, getpeers[0], getpeers[1]], None, None),
+                           ('message-just-under-the-size-limit-then-another/1000-byte-writes', [hello, near, getpeers[0], getpeers[1]], None, 1000),
+                           ('1300-small-frames-in-one-write', [hello] + getpeers, None, None),
                            ('unsupported-request-then-more/one-write', [hello, unsupported] + getpeers[:3], 2, None),
                            ('unsupported-request-then-more/7-byte-writes', [hello, unsupported] + getpeers[:3], 2, 7),
                            ('unsupported-request-then-more/1-byte-writes', [hello, unsupported] + getpeers[:3], 2, 1)]
@@ -177,6 +194,11 @@ def node_level(ck, tier):
                     sn.pump()
         finally:
             RP.MessageReceiver.handle_message_data = orig
+            try:
+                for mod_, val_ in patched_lim:
+                    mod_.MAX_MESSAGE_SIZE = val_
+            except NameError:
+                pass
 
 
 def run(tier, seed):
